@@ -7,6 +7,7 @@ import (
 	"os"
 	"path/filepath"
 	"strconv"
+	"time"
 )
 
 type checkFn func(c *Ctx)
@@ -90,7 +91,24 @@ func main() {
 	if hasCorr && !hasOracle && c.tier != "thorough" {
 		s := newCtx(prop, *tier, *seed+1000003, m)
 		s.searchOnly = true
-		fn(s)
+		// the search runs the generators at the thorough volume, but within a time budget (default 5 min in the
+		// quick tier; VERIF_SEARCH_SECONDS overrides) so that a quick check stays a quick check
+		budget := 300
+		if v, err := strconv.Atoi(os.Getenv("VERIF_SEARCH_SECONDS")); err == nil && v > 0 {
+			budget = v
+		}
+		s.deadline = time.Now().Add(time.Duration(budget) * time.Second)
+		func() {
+			defer func() {
+				if r := recover(); r != nil {
+					if _, ok := r.(searchTimeout); !ok {
+						panic(r)
+					}
+					c.notes = append(c.notes, fmt.Sprintf("failing-input search stopped after its time budget of %d s", budget))
+				}
+			}()
+			fn(s)
+		}()
 		for _, f := range s.failures {
 			if f.Kind == "oracle" {
 				c.failures = append([]failure{f}, c.failures...)
